@@ -17,6 +17,8 @@ histories on purpose (the region the finding's guard used to exclude) and count 
 from __future__ import annotations
 
 import itertools
+import math
+import struct
 from collections import Counter
 from fractions import Fraction
 
@@ -82,9 +84,24 @@ def enc_case(c):
                 ops.append([4, enc_pin(o[1])])
         return [0, ops]
     if k == "map":
+        if not all(q_encodable(v) for v in c[1:6]):
+            return [1] + [[3]] * 5                         # -> (3): outside the exact-rational model
         return [1] + [enc_num(v) for v in c[1:6]]
     if k == "sleep":
+        if not q_encodable(c[1]):
+            return [1] + [[3]] * 5                         # placeholder; the rational model is skipped
         return [2, enc_num(c[1])]
+    if k == "corex":
+        ops = []
+        for o in c[1]:
+            code = {"pin_mode": 0, "digital_write": 1, "analog_write": 2, "digital_read": 3, "analog_read": 4}[o[0]]
+            if code == 0:
+                ops.append([0, enc_xpin(o[1]), o[2]])
+            elif code in (1, 2):
+                ops.append([code, enc_xpin(o[1]), enc_num(o[2])])
+            else:
+                ops.append([code, enc_xpin(o[1])])
+        return [9, ops]
     if k == "button":
         return [3, enc_num(c[1]), bool(c[2]), bool(c[3]), [[0 if o[0] == "set" else 1, enc_num(o[1])] for o in c[4]]]
     if k == "pot":
@@ -108,6 +125,88 @@ def enc_case(c):
 
 def dec_pin(w):
     return w[1] if w[0] == 0 else C.wstr(w[1])
+
+
+# ---- bit-exact floats on the wire: (0 s) zero | (1 s) inf | (2) nan | (3 s m e) canonical finite ----
+
+INF = float("inf")
+KINDF = {1: "ValueError", 2: "TypeError", 4: "OverflowError", 5: "ZeroDivisionError"}
+
+
+def enc_sf(x: float):
+    if x != x:
+        return [2]
+    s = 1 if math.copysign(1.0, x) < 0 else 0
+    if x in (INF, -INF):
+        return [1, s]
+    if x == 0:
+        return [0, s]
+    m, e = math.frexp(abs(x))                  # abs(x) = m * 2**e, 0.5 <= m < 1
+    ec = max(e - 53, -1074)
+    mant = int(math.ldexp(m, e - ec))          # exact: an integer below 2**53
+    assert math.ldexp(float(mant), ec) == abs(x)
+    return [3, s, mant, ec]
+
+
+def dec_sf(w) -> float:
+    if w[0] == 2:
+        return float("nan")
+    if w[0] == 0:
+        return -0.0 if w[1] else 0.0
+    if w[0] == 1:
+        return -INF if w[1] else INF
+    v = math.ldexp(float(w[2]), w[3])          # exact: w[2] < 2**53, result representable
+    return -v if w[1] else v
+
+
+def enc_fnum(v):
+    if v is None:
+        return [3]
+    if isinstance(v, bool):
+        return [2, v]
+    if isinstance(v, int):
+        return [0, v]
+    if isinstance(v, float):
+        return [1, enc_sf(v)]
+    raise TypeError(f"not a model number: {v!r}")
+
+
+def enc_fcase(c):
+    """the bit-exact (binary64) models of Host/UtilsFloat.v: map -> case 7, sleep -> case 8"""
+    if c[0] == "map":
+        return [7] + [enc_fnum(v) for v in c[1:6]]
+    return [8, enc_fnum(c[1])]
+
+
+def q_encodable(v):
+    """the exact-rational models take finite numbers only"""
+    return not isinstance(v, float) or (v == v and v not in (INF, -INF))
+
+
+def enc_xpin(p):
+    if p is None:
+        return [4]
+    if isinstance(p, bool):
+        return [2, p]
+    if isinstance(p, int):
+        return [0, p]
+    if isinstance(p, str):
+        return [1, p]
+    if isinstance(p, float):
+        return [3, Fraction(p)]
+    return [5]
+
+
+def dec_xkey(w):
+    """key of the model state -> the canonical form harness/impl/c20_impl.py canon_key reports"""
+    if w[0] == 0:
+        return w[1]
+    t = w[1]
+    if t and t[0] == -1:
+        return ["float", t[1], t[2]]
+    if t == [-2]:
+        return ["none"]
+    return C.wstr(t)
 
 
 def close(a: Fraction, b: Fraction, scale: Fraction = Fraction(0)) -> bool:
@@ -247,10 +346,42 @@ def eval_core(ctx, st, case, r, m, oracle=True):
             ctx.disagree("Core dicts after the history: model vs implementation", case, ms, is_)
 
 
+def exact_in_float(v):
+    """an int that float() converts without rounding (bools and floats trivially)"""
+    if isinstance(v, bool) or isinstance(v, float):
+        return True
+    try:
+        return int(float(v)) == v
+    except OverflowError:
+        return False
+
+
+def map_in_guard(args):
+    """the range guard of C20_fmap_* / of the finding F-C20-map-float-range: finite numbers whose non-zero
+    magnitudes lie in [1e-60, 1e60] (no intermediate overflow or underflow is possible: |differences| >= 1e-76,
+    |ratio| in [5e-137, 2e136], |product| <= 4e196) and whose ints are exactly representable in binary64."""
+    if not all(is_num(v) for v in args):
+        return False
+    for v in args:
+        a = abs(frac(v))
+        if a != 0 and not (Fraction(1, 10**60) <= a <= 10**60):
+            return False
+        if not exact_in_float(v):
+            return False
+    return True
+
+
+def sleep_in_guard(d):
+    return is_num(d) and abs(frac(d)) <= 10**300
+
+
 def eval_map(ctx, st, case, r, m, oracle=True):
     args = case[1:6]
     st.n["map:" + (r[0] if r[0] == "ok" else str(r[1]))] += 1
-    if all(is_num(v) for v in args):
+    if all(is_num(v) for v in args) and not map_in_guard(args):
+        st.n["map_outside_range_guard(bit-exact correspondence only)"] += 1
+    if map_in_guard(args):
+        st.n["map_judged_by_oracle"] += 1
         x, fl, fh, tl, th = (frac(v) for v in args)
         if oracle:
             if fl == fh:
@@ -270,16 +401,89 @@ def eval_map(ctx, st, case, r, m, oracle=True):
                 ctx.disagree("Utils.map: model raises, implementation differs", case, m, r)
         else:
             q = C.wq(m[1])
-            if r[0] != "ok" or not is_num(r[1]) or not close(frac(r[1]), q, abs(frac(args[3])) + abs(q)):
+            if not map_in_guard(args):
+                st.n["map_rational_model_not_compared(outside range guard)"] += 1
+            elif r[0] != "ok" or not is_num(r[1]) or not close(frac(r[1]), q, abs(frac(args[3])) + abs(q)):
                 ctx.disagree("Utils.map value: model vs implementation", case, float(q), r)
+
+
+def sf_class(w):
+    return {0: "zero", 1: "inf", 2: "nan", 3: "finite"}[w[0]] + ("-" if w[0] != 2 and w[1] else "")
+
+
+def arg_kind(v):
+    if v is None:
+        return "None"
+    if isinstance(v, bool):
+        return "bool"
+    if isinstance(v, int):
+        return "int" if abs(v) <= 2**53 else "bigint" if abs(v) < 2**1023 else "hugeint"
+    if v != v:
+        return "nan"
+    if v in (INF, -INF):
+        return "inf"
+    if v == 0:
+        return "-0.0" if math.copysign(1.0, v) < 0 else "0.0"
+    return "subnormal" if abs(v) < 2.2250738585072014e-308 else "float"
+
+
+def eval_fmap(ctx, st, case, r, fm):
+    """bit-exact correspondence: the binary64 model of Host/UtilsFloat.v against float.hex() of the real result"""
+    for v in case[1:6]:
+        st.n["fmap_arg:" + arg_kind(v)] += 1
+    if fm[0] == 1:
+        st.n["fmap:" + str(KINDF.get(fm[1]))] += 1
+        same = r[0] == "raise" and r[1] == KINDF.get(fm[1])
+        shown = ["raise", KINDF.get(fm[1])]
+    else:
+        want = dec_sf(fm[1])
+        st.n["fmap:" + sf_class(fm[1])] += 1
+        same = r[0] == "ok" and r[2] == "float" and r[3] == want.hex()
+        shown = ["ok", want.hex()]
+    if not same:
+        ctx.disagree("Utils.map, bit for bit (float.hex): binary64 model vs implementation", case, shown, [r[0], r[3] if r[0] == "ok" else r[1], r[2]])
+
+
+def eval_fsleep(ctx, st, case, r, fm):
+    st.n["fsleep_arg:" + arg_kind(case[1])] += 1
+    mcalls = [dec_sf(w).hex() for w in (fm[1] if fm[0] == 0 else fm[2])]
+    st.n["fsleep:" + ("ok" if fm[0] == 0 else str(KINDF.get(fm[1])))] += 1
+    for way, out in r.items():
+        status, exc, _calls, hexes = out
+        same = (status == "ok") == (fm[0] == 0) and (fm[0] == 0 or exc == KINDF.get(fm[1])) and hexes == mcalls
+        if not same:
+            ctx.disagree(f"Utils.sleep [{way}], bit for bit (float.hex): binary64 model vs implementation", case,
+                         [("ok" if fm[0] == 0 else KINDF.get(fm[1])), mcalls], [status, exc, hexes])
+
+
+def eval_corex(ctx, st, case, r, m, oracle=True):
+    """Core over pins that are neither int nor str: correspondence only (the statement quantifies over int and
+    str pin names; what True / 7.0 / None / a list do is modelled as it is, Host/CoreKeys.v)"""
+    ops = case[1]
+    for op, ir in zip(ops, r["results"]):
+        st.n["corex_pin:" + ("unhashable" if isinstance(op[1], list) else type(op[1]).__name__)] += 1
+        if ir[0] == "raise":
+            st.n["corex_raise:" + str(ir[1])] += 1
+    if m is None:
+        return
+    for i, (op, ir) in enumerate(zip(ops, r["results"])):
+        if not res_matches(m[1][i], ir):
+            ctx.disagree(f"Core call {i} {op} (extended pins): model vs implementation", case, m[1][i], ir)
+            return
+    key = lambda kv: repr(kv)
+    ms = {name: sorted(([dec_xkey(p), (C.wstr(v) if name == "modes" else v)] for p, v in m[2][j]), key=key)
+          for j, name in enumerate(("modes", "digital", "analog"))}
+    is_ = {name: sorted(([k, v] for k, v in r["state"][name]), key=key) for name in ("modes", "digital", "analog")}
+    if ms != is_:
+        ctx.disagree("Core dicts after the history (extended pins, keys as dict lookup identifies them): model vs implementation", case, ms, is_)
 
 
 def eval_sleep(ctx, st, case, r, m, oracle=True):
     d = case[1]
     for way, out in r.items():
-        status, exc, calls = out
+        status, exc, calls = out[:3]
         st.n[f"sleep_{way}:" + (status if status == "ok" else str(exc))] += 1
-        if oracle and is_num(d):
+        if oracle and sleep_in_guard(d):
             if frac(d) < 0:
                 if not (status == "raise" and exc == "ValueError") or calls:
                     ctx.fail(f"sleep({d!r}) [{way}] did not refuse a negative duration before sleeping", case, ["ValueError", []], out, key="sleep-negative")
@@ -444,7 +648,7 @@ def eval_serial(ctx, st, case, r, m, oracle=True):
                 ctx.disagree(f"SerialMonitor call {i} {o}: model vs implementation", case, [mtexts, mr], x)
 
 
-EVAL = {"core": eval_core, "map": eval_map, "sleep": eval_sleep, "button": eval_button,
+EVAL = {"core": eval_core, "corex": eval_corex, "map": eval_map, "sleep": eval_sleep, "button": eval_button,
         "pot": eval_pot, "ultra": eval_ultra, "serial": eval_serial}
 
 
@@ -571,6 +775,125 @@ def gen_map(rng, thorough):
             t[0] = rng.choice([base, base + width, base + width / 2, base - width, t[0]])
         cases.append(["map"] + t)
     cases += [["map", None, 0, 1, 0, 1], ["map", 1, None, None, 0, 1], ["map", 1, 0, 1, None, 1]]
+    return cases
+
+
+NAN = float("nan")
+DBL_MAX = 1.7976931348623157e308
+FSPECIAL = [NAN, INF, -INF, 0.0, -0.0, 5e-324, -5e-324, 2.2250738585072014e-308, 2.225073858507201e-308, DBL_MAX, -DBL_MAX,
+            1e308, -1e308, 2.0 ** 53, 2.0 ** 53 + 2, 1.5e-323, 1e16, 0.1, 0.3, 1 / 3, 1.0, -1.0, 1e-320, 2.0 ** 1023, 2.0 ** -1022, 1e-300, 1e300]
+ISPECIAL = [0, 1, -1, True, False, 2 ** 53, 2 ** 53 + 1, 2 ** 53 - 1, -(2 ** 53 + 1), 2 ** 54 + 2, 2 ** 64, 2 ** 64 + 1, 10 ** 18 + 1,
+            10 ** 400, -10 ** 400, 2 * 10 ** 400, 3 * 10 ** 400, 2 ** 1024, 2 ** 1024 - 2 ** 970, 2 ** 1024 - 2 ** 970 - 1,
+            -(2 ** 1024 - 2 ** 970), 10 ** 308, 2 ** 1023, 7, 10, 1000, 3, 2 ** 1100 + 12345, 2 ** 2100]
+
+
+def rand_float(rng):
+    k = rng.random()
+    if k < 0.30:
+        return struct.unpack("<d", struct.pack("<Q", rng.getrandbits(64)))[0]      # any bit pattern (NaNs, subnormals, huge)
+    if k < 0.50:
+        return rng.choice(FSPECIAL)
+    if k < 0.72:
+        return rng.uniform(-1000, 1000)
+    if k < 0.84:
+        return rng.choice([1, -1]) * math.ldexp(rng.random(), rng.randint(-1080, 1023))
+    return float(rng.randint(-2 ** 54, 2 ** 54))
+
+
+def rand_int(rng):
+    k = rng.random()
+    if k < 0.4:
+        return rng.choice(ISPECIAL)
+    if k < 0.7:
+        return rng.randint(-1100, 1100)
+    return rng.choice([1, -1]) * rng.getrandbits(rng.choice([30, 53, 54, 64, 100, 500, 1023, 1024, 1025, 1100, 2200]))
+
+
+def rand_num(rng, p_int=0.3):
+    k = rng.random()
+    if k < 0.03:
+        return None
+    return rand_int(rng) if k < 0.03 + p_int else rand_float(rng)
+
+
+def gen_fmap(rng, thorough):
+    """the stream for the bit-exact binary64 model: IEEE specials, signed zeros, subnormals, overflow and
+    underflow, ints beyond 2^53 / beyond the float range, bools, None, zero spans across types"""
+    cases = []
+    sp = [NAN, INF, -INF, 0.0, -0.0, 5e-324, DBL_MAX, -DBL_MAX, 1, True, None, 2 ** 53 + 1, 10 ** 400, 0.1]
+    for t in itertools.product(sp, repeat=2):
+        cases.append(["map", 0.5, t[0], t[1], 0, 1])          # the == test across specials and types
+        cases.append(["map", t[0], 0, 1, t[1], 1.5])
+        cases.append(["map", t[0], t[1], 2, -1, 1])
+        cases.append(["map", 1, 0, 2, t[0], t[1]])
+    # the witnesses of the range guard (finding F-C20-map-float-range) and their neighbours
+    cases += [["map", 0, 0, 1, -1e308, 1e308], ["map", 0.0, 0.0, 1.0, -1e308, 1e308], ["map", 1, 0, 1, -1e308, 1e308],
+              ["map", 1, 2 ** 53 + 1, 2.0 ** 53, 0, 1], ["map", 1.0, 2 ** 53 + 1, 2.0 ** 53, 0, 1], ["map", 1, 2 ** 53 + 1, 2 ** 53, 0, 1],
+              ["map", 10 ** 400, 0, 2 * 10 ** 400, 0, 1], ["map", 10 ** 400, 0, 2 * 10 ** 400, 0, 1.0], ["map", 10 ** 400, 0, 2 * 10 ** 400, 0.0, 1],
+              ["map", 10 ** 400, 0.0, 2 * 10 ** 400, 0, 1], ["map", 1, 0, 1, 1e16, 1], ["map", 0, 0, -5, 0, 1], ["map", 0, 0, -5, -0.0, 0.0],
+              ["map", 0, 1, -(10 ** 400), 0, 1], ["map", 1, 0, 10 ** 400, 0, 1], ["map", 2 ** 1024, 0, 1, 0, 1], ["map", 2 ** 1100, 0, 2 ** 80, 0, 1],
+              ["map", 3, 0, 2 ** 1075, 0, 1], ["map", 1, 0, 2 ** 1074, 0, 1], ["map", 3, 0, 2 ** 1076, 0, 1], ["map", 2 ** 1024 - 2 ** 970, 0, 1, 0, 1],
+              ["map", 2 ** 1024 - 2 ** 970 - 1, 0, 1, 0, 1], ["map", 2 ** 1024 - 2 ** 970 - 1, 0, 1.0, 0, 1], ["map", 2 ** 1024 - 2 ** 970, 0, 1.0, 0, 1]]
+    for _ in range(60000 if thorough else 6000):
+        k = rng.random()
+        if k < 0.25:
+            t = [rand_int(rng) for _ in range(3)] + [rand_num(rng, 0.5), rand_num(rng, 0.5)]     # int / int true division
+        elif k < 0.45:
+            t = [rand_float(rng) for _ in range(5)]
+        else:
+            t = [rand_num(rng) for _ in range(5)]
+        r = rng.random()
+        if r < 0.08:
+            t[2] = t[1]
+        elif r < 0.16 and t[1] is not None:
+            v = t[1]                                       # the same value in another type, where one exists
+            try:
+                if isinstance(v, float) and v == int(v):
+                    t[2] = int(v)
+                elif isinstance(v, int):
+                    t[2] = float(v)
+            except (OverflowError, ValueError):
+                pass
+        elif r < 0.30:
+            t[0] = rng.choice([t[1], t[2]])
+        elif r < 0.36 and isinstance(t[1], float) and t[1] == t[1] and abs(t[1]) < INF:
+            t[2] = math.nextafter(t[1], rng.choice([INF, -INF]))      # the narrowest non-zero span
+        cases.append(["map"] + t)
+    return cases
+
+
+def gen_fsleep(rng, thorough):
+    vals = list(FSPECIAL) + list(ISPECIAL) + [None, -1e-320, -2.0 ** -1074, 1000.0, 999.9999999999999, 1e-5]
+    vals += [rand_num(rng, 0.4) for _ in range(3000 if thorough else 500)]
+    return [["sleep", v, False] for v in vals]
+
+
+XPINS = [1, True, 1.0, "1", "01", 0, False, 0.0, -0.0, "0", 7, 7.0, "7", "07", 7.5, "7.5", None, "None", [7], [], 2.5, -1, -1.0, "-1", 0.5, 255.0, "A0"]
+
+
+def gen_corex(rng, thorough):
+    cases = []
+    for p in XPINS:
+        for q in XPINS:
+            cases.append(["corex", [["pin_mode", p, PULLUP], ["digital_read", q], ["analog_write", p, 200.5], ["digital_write", p, 0],
+                                    ["digital_read", q], ["analog_read", q], ["pin_mode", q, "OUTPUT"], ["analog_write", q, None], ["analog_read", p]]])
+    for _ in range(5000 if thorough else 500):
+        hot = rng.sample(range(len(XPINS)), rng.randint(2, 6))
+        ops = []
+        for _ in range(rng.randint(1, 16)):
+            p = XPINS[rng.choice(hot)]
+            k = rng.random()
+            if k < 0.2:
+                ops.append(["pin_mode", p, rng.choice(MODES + [PULLUP])])
+            elif k < 0.4:
+                ops.append(["digital_write", p, rng.choice(DVALS)])
+            elif k < 0.6:
+                ops.append(["analog_write", p, rng.choice(AVALS + [None])])
+            elif k < 0.8:
+                ops.append(["digital_read", p])
+            else:
+                ops.append(["analog_read", p])
+        cases.append(["corex", ops])
     return cases
 
 
@@ -742,8 +1065,9 @@ def run(ctx: C.Ctx):
     core_cases, alias_pairs = gen_core(rng, thorough)
     groups = {
         "core": core_cases,
-        "map": gen_map(rng, thorough),
-        "sleep": gen_sleep(rng, thorough),
+        "corex": gen_corex(rng, thorough),
+        "map": gen_map(rng, thorough) + gen_fmap(rng, thorough),
+        "sleep": gen_sleep(rng, thorough) + gen_fsleep(rng, thorough),
         "button": gen_button(rng, thorough),
         "pot": gen_pot(rng, thorough),
         "ultra": gen_ultra(rng, thorough),
@@ -751,18 +1075,32 @@ def run(ctx: C.Ctx):
     }
     cases = [c for g in groups.values() for c in g]
     impl = C.run_impl("c20_impl.py", {"cases": cases}, timeout=900)
+    fcases = [c for c in cases if c[0] in ("map", "sleep")]
     if ctx.exe:
         model = ctx.model([enc_case(c) for c in cases])
+        fmodel = ctx.model([enc_fcase(c) for c in fcases])
     else:
         model = [None] * len(cases)
+        fmodel = None
 
     n_fail0 = len(ctx.failures)
     for c, r, m in zip(cases, impl, model):
         if m == [2]:
             ctx.disagree("model could not decode the case (harness encoding bug)", c, m, None)
             m = None
+        if c[0] == "sleep" and not (c[1] is None or sleep_in_guard(c[1])):
+            m = None                      # the exact-rational sleep model takes finite numbers float() can hold
         EVAL[c[0]](ctx, st, c, r, m)
         st.distinct.add(repr(c[:2]) if c[0] == "core" else repr(c))
+
+    # bit-exact correspondence of Utils.map / Utils.sleep (binary64 model, float.hex on both sides)
+    if fmodel is not None:
+        impl_of = {id(c): r for c, r in zip(cases, impl)}
+        for c, fm in zip(fcases, fmodel):
+            if fm == [2]:
+                ctx.disagree("binary64 model could not decode the case (harness encoding bug)", c, fm, None)
+                continue
+            (eval_fmap if c[0] == "map" else eval_fsleep)(ctx, st, c, impl_of[id(c)], fm)
 
     # alias oracle on the implementation: respelled histories behave identically
     n_alias = 0
@@ -795,6 +1133,8 @@ def run(ctx: C.Ctx):
             continue
         if replay_witness(f)[2]:
             ctx.known(f"{f['id']}: {f['what']}")
+
+    _debug_dump(ctx)
 
     def nontrivial(c):
         if c[0] == "core":
@@ -852,3 +1192,11 @@ def replay(data):
     for f in probe.failures:
         print("STILL FAILS:", f["what"], "expected", f["expected"], "observed", f["observed"])
     return 1 if probe.failures else 0
+
+
+def _debug_dump(ctx):   # pragma: no cover - development aid (VERIF_C20_DEBUG=1)
+    import json
+    import os
+    if os.environ.get("VERIF_C20_DEBUG"):
+        with open("/tmp/wp/c20grow_dis.json", "w") as f:
+            json.dump(ctx.tie_broken, f, default=repr)
